@@ -463,16 +463,25 @@ Section Builders.
   (* ---------------------------------------------------------------- *)
   (* probe                                                             *)
   (* ---------------------------------------------------------------- *)
-  Notation probe_source := (probe_source L).
+  (* [repair] the probe library is a parameter: Some true = registered key, Some false =
+     unregistered (KeyError), None = unhashable key (TypeError) *)
+  Variable registered : cfg L -> option bool.
+  Notation probe_source := (probe_source L registered).
   Notation probe_location_ops := (probe_location_ops L leaf_has).
-  Notation probe_from_conf := (probe_from_conf L leaf_has).
+  Notation probe_from_conf := (probe_from_conf L leaf_has registered).
 
+  (* [repair: the PsLibrary case used to be Ok (SrcLibrary k) for every k] *)
   Lemma probe_source_spec : forall conf,
     probe_source conf =
     match probe_dispatch conf with
     | PsError => Err EAttr
     | PsLibrary => match lookup "probe_key" conf with
-                   | Some k => Ok (SrcLibrary k) | None => Err EKey end
+                   | Some k => match registered k with
+                               | Some true => Ok (SrcLibrary k)
+                               | Some false => Err EKey
+                               | None => Err EType
+                               end
+                   | None => Err EKey end
     | PsMatrix => match lookup "probe" conf with
                   | None => Err EKey
                   | Some (Leaf _) => Err EType
@@ -483,11 +492,42 @@ Section Builders.
   Proof.
     intros conf. unfold ConfLoad.probe_source, probe_dispatch.
     destruct (has "probe_key" conf) eqn:E1, (has "probe" conf) eqn:E2; cbn [andb]; try reflexivity.
-    - unfold getitem. now destruct (lookup "probe_key" conf).
+    - unfold getitem, registry_lookup. now destruct (lookup "probe_key" conf).
     - unfold getitem. destruct (lookup "probe" conf) as [[v|kw]|]; cbn; try reflexivity.
       unfold sig_check. now destruct (sig_ok matrix_required matrix_params kw).
     - unfold getitem. destruct (lookup "probe" conf) as [[v|kw]|]; cbn; try reflexivity.
       unfold sig_check. now destruct (sig_ok matrix_required matrix_params kw).
+  Qed.
+
+  (* a probe taken from the library: the key is the value under "probe_key", it is
+     registered, and there is no "probe" entry *)
+  Lemma probe_source_library : forall conf k,
+    probe_source conf = Ok (SrcLibrary k) <->
+    lookup "probe_key" conf = Some k /\ has "probe" conf = false /\ registered k = Some true.
+  Proof.
+    intros conf k. rewrite probe_source_spec. unfold probe_dispatch, has.
+    destruct (lookup "probe_key" conf) as [k'|]; destruct (lookup "probe" conf) as [[v|kw]|]; cbn [andb].
+    all: try (split; [discriminate | intros [H1 [H2 H3]]; discriminate]).
+    - destruct (registered k') as [[|]|] eqn:Er.
+      + split; [intros [= <-]; now repeat split | intros [[= <-] _]; reflexivity].
+      + split; [discriminate | intros [[= <-] [_ H]]; congruence].
+      + split; [discriminate | intros [[= <-] [_ H]]; congruence].
+    - split; [|intros [H _]; discriminate].
+      destruct (sig_ok matrix_required matrix_params kw); discriminate.
+  Qed.
+
+  (* an unregistered key is a KeyError, an unhashable one a TypeError - whatever else the
+     configuration holds, unless "probe" is there too (AttributeError first) *)
+  Lemma probe_source_unregistered : forall conf k,
+    lookup "probe_key" conf = Some k -> has "probe" conf = false ->
+    probe_source conf = match registered k with
+                        | Some true => Ok (SrcLibrary k)
+                        | Some false => Err EKey
+                        | None => Err EType
+                        end.
+  Proof.
+    intros conf k Hk Hp. rewrite probe_source_spec. unfold probe_dispatch.
+    unfold has in *. rewrite Hk. destruct (lookup "probe" conf); [discriminate|]. reflexivity.
   Qed.
 
   (* the calls made on the probe for a probe_location mapping: presence of a key decides
@@ -684,12 +724,13 @@ Section Frame.
   Variable zero : L.
   Notation get_not_none := (get_not_none L is_none).
   Notation examination_object_from_conf := (examination_object_from_conf L is_none is_float).
-  Notation probe_from_conf := (probe_from_conf L leaf_has).
+  Variable registered : cfg L -> option bool.
+  Notation probe_from_conf := (probe_from_conf L leaf_has registered).
   Notation grid_from_conf := (grid_from_conf L zero).
   Variable known_dataset : cfg L -> bool.
   Variable load_expdata : frame_src L -> res unit.
   Notation frame_source := (frame_source L known_dataset).
-  Notation frame_from_conf := (frame_from_conf L is_none is_float leaf_has known_dataset load_expdata).
+  Notation frame_from_conf := (frame_from_conf L is_none is_float leaf_has registered known_dataset load_expdata).
 
   Lemma frame_source_spec : forall conf,
     frame_source conf =
